@@ -394,6 +394,8 @@ def run_unary(prop, tier, seed, replay):
                 models.append(engine.cyclebreak_model(work, tier))
             if prop == "C10":
                 models.append(engine.netsimplex_model(work, tier))
+            if prop == "C11":
+                models.append(engine.longestpath_model(work, tier))
             if prop in ("C04", "C16"):
                 models.append(engine.position_model(work, tier))
             if prop in ("C04", "C13"):
